@@ -542,8 +542,11 @@ def coupled_run(res, ctx, use_model):
                          psd=host.PBM[0].PSD.copy(), size=host.PBM[0].PSDsize.copy(),
                          rss=float(sm.rss[-1, 0]), ls=float(sm.ls[-1, 0]), ss=float(sm.solidStrength[-1]),
                          comp=float(host.pData.composition[n, 0])))
+        if len(rows) >= cap:          # safety cap on the run length (the step size of a fresh solve call varies)
+            raise kwnruns.StopRun()
+    cap = ctx.n(600, 4000)
     t1 = ctx.rng.uniform(1.0, 2.5)
-    t2 = ctx.n(ctx.rng.uniform(2.0, 3.5), ctx.rng.uniform(20.0, 200.0))
+    t2 = ctx.n(ctx.rng.uniform(0.5, 1.0), ctx.rng.uniform(20.0, 200.0))
     kwnruns.run(m, t1, observer=obs)          # the observer slot is registered once and stays for later solve calls
     n1 = len(rows)
     kwnruns.run(m, t2)
